@@ -148,7 +148,10 @@ def random_text(rng):
         elif r < 0.3:
             lines.append(' ' * rng.randrange(1, 6))
         else:
-            lines.append(' ' * rng.choice([0, 0, 2, 4, 8]) + ' '.join(rng.choice(WORDS) for _ in range(rng.randrange(1, 7))))
+            # indentation: blanks, tabs, and now and then the other white-space bytes a lexer accepts (vertical tab, form
+            # feed) - bytes next to the line feed in value, which a byte-wise counter must not take for one
+            ind = ' ' * rng.choice([0, 0, 2, 4, 8]) if rng.random() < 0.85 else rng.choice(['\x0b', '\x0c', '\x0b\x0b', '\t\x0b', '\x0b '])
+            lines.append(ind + ' '.join(rng.choice(WORDS) for _ in range(rng.randrange(1, 7))))
     mixed = rng.random() < 0.15
     txt = ''
     for i, l in enumerate(lines):
@@ -164,7 +167,7 @@ def token_starts(b):
     offs = []
     prev_ws = True
     for i, c in enumerate(b):
-        ws = c in (32, 9, 10, 13)
+        ws = c in (32, 9, 10, 11, 12, 13)
         if not ws and prev_ws and (c < 0x80 or c >= 0xC0):
             offs.append(i)
         prev_ws = ws
